@@ -17,7 +17,7 @@
            raw = Some caps: the reader is a raw stream, read(-1) = readall() = read(buf) until an empty read
            (buf = io.DEFAULT_BUFFER_SIZE), then file.read asks once more: one more (empty) read call. *)
 From Coq Require Import List ZArith NArith Bool Arith.
-From RxVerif Require Import Base.Corr Framing.Line Container.Parquet Container.JsonLines.
+From RxVerif Require Import Base.Corr Framing.Line Container.Parquet Container.JsonLines Container.Json.
 Import ListNotations.
 
 Inductive c19case :=
@@ -28,7 +28,11 @@ Inductive c19case :=
 | CBig (fsize rsize : N) (raw : option (list N)) (read_sizes : list N) (segs lens_out : list (list N))
        (skip : nat) (n_items : N) (completed : bool)
 | CDoc (fsize buf : N) (raw : option (list N)) (read_sizes : list N) (chunks : list (list Z))
-       (tbl : list (list Z * option N)) (skip : nat) (ignore : bool) (items : list N) (completed : bool).
+       (tbl : list (list Z * option N)) (skip : nat) (ignore : bool) (items : list N) (completed : bool)
+(* the model of orjson on the float-free subset (Container/Json.v) against the real library:
+   dumps = (value, the bytes rxsci json.dump emitted for it, newline removed = orjson.dumps(value)),
+   loads = (text, what orjson.loads answers on it: None = it raises or the result holds a float) *)
+| CJsonModel (dumps : list (jv * list Z)) (loads : list (list Z * option jv)).
 
 Definition ns_eqb := list_eqb N.eqb.
 Definition count_nonzero (l : list N) : N := N.of_nat (length (filter (fun x => negb (x =? 0)%N) l)).
@@ -78,4 +82,12 @@ Definition c19_check (c : c19case) : bool :=
              && (N.of_nat (length caps) =? N.of_nat (length s) + (if (fsize =? 0)%N then 1 else 2))%N
          end
       && ns_eqb (fst r) items && Bool.eqb (snd r) completed
+  | CJsonModel dumps loads =>
+      forallb (fun c => jv_wfb (fst c) && zs_eqb (json_print (fst c)) (snd c)
+                        && match json_parse (snd c) with Some v => jv_eqb v (fst c) | None => false end) dumps
+      && forallb (fun c => match json_parse (fst c), snd c with
+                           | Some v, Some w => jv_eqb v w
+                           | None, None => true
+                           | _, _ => false
+                           end) loads
   end.
